@@ -21,7 +21,8 @@ CONSTANTS MaxDepth
 ThrRefs == {1, 3}        \* two threshold dictionaries owned by the user: 1 holds consistency thresholds, 3 amplitude thresholds
 TkOf(method) == IF method = "cycles" THEN 1 ELSE 3
 BkRef   == 2             \* one burst-options dictionary owned by the user
-Refs    == {1, 2, 3}
+Refs    == {1, 2, 3, 4}     \* 4: the find_extrema options (filter length, boundary) shared by objects and calls; never edited, must never change
+Editable == {1, 2, 3}
 Objs    == {1, 2}
 Sigs    == {1, 2}
 Mnc     == {0, 2, 3}     \* min_n_cycles: 0 = key absent
@@ -80,7 +81,7 @@ Next == /\ Len(hist) < MaxDepth
         /\ \/ \E o \in Objs, method \in {"cycles", "amp"}, tk \in ThrRefs : New(o, method, tk)
            \/ \E o \in Objs, s \in Sigs : Fit(o, s) \/ Load(o, s)
            \/ \E o \in Objs, r \in {0, 1} : Recompute(o, r)
-           \/ \E r \in Refs, val \in Mnc : EditDict(r, "mnc", val)
+           \/ \E r \in Editable, val \in Mnc : EditDict(r, "mnc", val)
            \/ \E r \in ThrRefs, val \in {1, 2} : EditDict(r, "lvl", val)
            \/ \E o \in Objs : GetAttr(o)
            \/ \E f \in Funcs, method \in {"cycles", "amp"}, tk \in ThrRefs, s \in Sigs : Call(f, method, tk, s)
@@ -94,7 +95,7 @@ NextFocused == /\ Len(hist) < MaxDepth
                /\ \/ \E o \in Objs, method \in {"cycles", "amp"} : New(o, method, TkOf(method))
                   \/ \E o \in Objs, s \in Sigs : Fit(o, s) \/ Load(o, s)
                   \/ \E o \in Objs, r \in {0, 1} : Recompute(o, r)
-                  \/ \E r \in Refs : EditDict(r, "mnc", NextVal("mnc", heap[r].mnc))
+                  \/ \E r \in Editable : EditDict(r, "mnc", NextVal("mnc", heap[r].mnc))
                   \/ \E r \in ThrRefs : EditDict(r, "lvl", NextVal("lvl", heap[r].lvl))
                   \/ \E o \in Objs : GetAttr(o)
                   \/ \E f \in FuncsFocus, method \in {"cycles", "amp"}, s \in Sigs : Call(f, method, TkOf(method), s)
